@@ -4,12 +4,12 @@ From Fences Require Import GraphSpec GraphLinks GraphExec GraphAnalysis GraphThe
 (* every entry of generate_paths(): its path runs from the root, is consumed exactly (empty rest),
    and the run applies the leaf reported as target.  Holds for both code variants (partial
    correctness: whenever generate_paths yields the entry at all). *)
-Theorem C04_exact : forall V g root fuel lr0 a es st e,
-  wf g root ->
-  generate_paths V fuel g root lr0 aempty = Ok (a, (es, st)) -> In e es ->
+Theorem C04_exact : forall V g root fuel lr0 lv0 a es st e,
+  wf g root -> (fix_reset V = true \/ forall s i, s < length g -> lv0 s i = None) ->
+  generate_paths V fuel g root lr0 lv0 = Ok (a, (es, st)) -> In e es ->
   exists tr, exec fuel g root (epath e) = Ok (tr, []) /\ In (etarget e) tr /\
              is_leaf g (etarget e) = true.
-Proof. intros V g root fuel lr0 a es st e W GP. exact (paths_exact V g root W fuel lr0 a es st GP e). Qed.
+Proof. intros V g root fuel lr0 lv0 a es st e W F GP. exact (paths_exact V g root W fuel lr0 lv0 a es st F GP e). Qed.
 Print Assumptions C04_exact.
 
 (* the interpreter is the stated reference semantics, for every path (generated or not) *)
@@ -22,13 +22,13 @@ Proof.
 Qed.
 Print Assumptions C04_reference.
 
-Corollary C04_exact_reference : forall V g root fuel lr0 a es st e,
-  wf g root ->
-  generate_paths V fuel g root lr0 aempty = Ok (a, (es, st)) -> In e es ->
+Corollary C04_exact_reference : forall V g root fuel lr0 lv0 a es st e,
+  wf g root -> (fix_reset V = true \/ forall s i, s < length g -> lv0 s i = None) ->
+  generate_paths V fuel g root lr0 lv0 = Ok (a, (es, st)) -> In e es ->
   exists tr, Run g root (epath e) tr [] /\ In (etarget e) tr.
 Proof.
-  intros V g root fuel lr0 a es st e W GP He.
-  destruct (paths_exact V g root W fuel lr0 a es st GP e He) as (tr & X & I & _).
+  intros V g root fuel lr0 lv0 a es st e W F GP He.
+  destruct (paths_exact V g root W fuel lr0 lv0 a es st F GP e He) as (tr & X & I & _).
   exists tr. split; auto. exact (exec_Run g fuel root (epath e) tr [] X).
 Qed.
 Print Assumptions C04_exact_reference.
